@@ -53,6 +53,9 @@ proof { lemma_inv_exit(old, new, ops0, ops@); }
 '''
 
 # ------------------------------------------------------------------------------------------------- shift_diff_ops_up
+# the loop body is one query of ~4 s; it needs 20-30 M rlimit units depending on what else is in the unit (default limit 30 M)
+i, a, b = body_range(UP)
+o.lines[i:i] = ghost('#[verifier::rlimit(30)]')
 i, a, b = body_range(UP)
 o.after('{', ENTRY, start=a, stmt=False, ind='    ')
 o.after('while let Some(prev_op__r)', INV + '''
@@ -72,9 +75,13 @@ proof {
 ''', start=k, ind='                    ')
 # (Delete, Equal): a Delete has no new items, so nothing can be shifted
 k = o.find('(DiffTag::Delete, DiffTag::Equal) => {', a)
-o.before('if suffix_len != 0 {', '''
-assert(suffix_len == 0);
-''', start=k)
+o.after('if suffix_len != 0 {', '''
+assert(false);   // dead: common_suffix_len of an empty new range is 0
+''', start=k, stmt=False, ind='                    ')
+for nth in (1, 2):
+    o.after('} else if ops[pointer - 1].is_empty() {', '''
+assert(false);   // dead: no op is empty at the loop head
+''', start=a, nth=nth, stmt=False, ind='                    ')
 # swap
 k = o.find('ops.swap(pointer - 1, pointer);', a)
 o.after('pointer -= 1;', '''
@@ -101,6 +108,8 @@ o.lines[k:k] = ghost(EXIT, '    ')
 
 # ----------------------------------------------------------------------------------------------- shift_diff_ops_down
 i, a, b = body_range(DOWN)
+o.lines[i:i] = ghost('#[verifier::rlimit(30)]')
+i, a, b = body_range(DOWN)
 o.after('{', ENTRY, start=a, stmt=False, ind='    ')
 o.after('while let Some(next_op__r)', INV + '''
     decreases ops@.len() - pointer, (if pointer + 1 < ops@.len() { olen(ops@[pointer + 1]) } else { 0 }),
@@ -117,9 +126,13 @@ proof {
 }
 ''', start=k, ind='                    ')
 k = o.find('(DiffTag::Delete, DiffTag::Equal) => {', a)
-o.before('if prefix_len > 0 {', '''
-assert(prefix_len == 0);
-''', start=k)
+o.after('if prefix_len > 0 {', '''
+assert(false);   // dead: common_prefix_len of an empty new range is 0
+''', start=k, stmt=False, ind='                    ')
+for nth in (1, 2):
+    o.after('} else if ops[pointer + 1].is_empty() {', '''
+assert(false);   // dead: no op is empty at the loop head
+''', start=a, nth=nth, stmt=False, ind='                    ')
 k = o.find('ops.swap(pointer, pointer + 1);', a)
 o.after('pointer += 1;', '''
 proof {
@@ -150,7 +163,6 @@ o.lines[i:i] = ghost('#[verifier::exec_allows_no_decreases_clause]')
 i, a, b = body_range(TOP)
 o.after('{', '''
 let ghost ops0 = ops@;
-proof { lemma_post_refl(old, new, ops0); }
 ''', start=a, stmt=False, ind='    ')
 TOPINV = '''
     invariant
